@@ -1265,7 +1265,8 @@ def r079(F, rep):
 # ----------------------------------------------------------------- R07.10 ---
 # operand through which an address constant flows (C11 6.6p9: & of a static object, array/function designator,
 # casts of those, plus or minus an integer constant; parse.c new_add/new_sub put the pointer in lhs)
-RELOC_THROUGH = {'eval2': {'ND_ADD': 'lhs', 'ND_SUB': 'lhs', 'ND_COND': None, 'ND_COMMA': 'rhs', 'ND_CAST': 'lhs', 'ND_ADDR': 'lhs', 'ND_MEMBER': 'lhs'},
+RELOC_THROUGH = {'eval2': {'ND_ADD': 'lhs', 'ND_SUB': 'lhs', 'ND_COND': None, 'ND_COMMA': 'rhs', 'ND_CAST': 'lhs', 'ND_ADDR': 'lhs', 'ND_MEMBER': 'lhs',
+                           'ND_DEREF': 'lhs'},     # *p of array type is the address p itself (a[1] of a 2-D array); other derefs are rejected by the arm
                  'eval_rval': {'ND_DEREF': 'lhs', 'ND_MEMBER': 'lhs'}}      # None: the selected arm
 RELOC_DIRECT = {'eval2': ('ND_VAR', 'ND_LABEL_VAL'), 'eval_rval': ('ND_VAR',)}
 ADDRESS_WIDE = ('ptr', 'long', 'ulong')
